@@ -136,6 +136,11 @@ def build(kind, r):
         if r.get("points"):
             sc.add_geometry(trimesh.PointCloud(np.round(rs.uniform(-1, 1, (4, 3)), 3)), node_name="p", geom_name="pc")
         sc.metadata.update(_meta(r["salt"]))
+        if r.get("repair", "default") != "default":
+            # the graph's tolerance for repairing nearly rigid products is a setting of the graph; with it, an edge that is a few
+            # parts per million off rigid (read back differently under different settings)
+            sc.graph.repair_rigid = r["repair"]
+            sc.graph.update(frame_to="d", frame_from="a", matrix=mx.hom(mx.rodrigues([0, 1, 0], 0.8) * (1.0 + 3e-6), [40.0, -25.0, 10.0]), geometry="g1")
         if r.get("camera"):
             from trimesh.scene.cameras import Camera
 
@@ -264,7 +269,7 @@ def observe(kind, o, deep=True):
             out["kdtree"] = np.array(o.kdtree.query(np.array([[0.1, 0.2, 0.3], [-1.0, 1.0, 0.5]]))[0])
         return out
     if kind == "scene":
-        out = {"edges": sorted((a, b, np.round(np.array(attr.get("matrix", np.eye(4))), 12).tolist(), attr.get("geometry"), repr(_plain(attr.get("metadata")))) for a, b, attr in o.graph.to_edgelist()), "base": o.graph.base_frame, "metadata": _plain(dict(o.metadata)), "geometry": {}}
+        out = {"repair_rigid": o.graph.repair_rigid, "edges": sorted((a, b, np.round(np.array(attr.get("matrix", np.eye(4))), 12).tolist(), attr.get("geometry"), repr(_plain(attr.get("metadata")))) for a, b, attr in o.graph.to_edgelist()), "base": o.graph.base_frame, "metadata": _plain(dict(o.metadata)), "geometry": {}}
         for name, g in o.geometry.items():
             gk = "mesh" if isinstance(g, trimesh.Trimesh) else "points"
             out["geometry"][name] = observe(gk, g, deep=False)
@@ -685,6 +690,7 @@ class C17(World):
             r["edge_meta"] = rng.random() < 0.7
             r["camera"] = rng.choice([None, None, None, "fov", "focal"])
             r["lights"] = rng.random() < 0.3
+            r["repair"] = rng.choice(["default", "default", None, 1e-3, 1e-7])
         if kind in ("path2d", "path3d"):
             r["vattr"] = rng.random() < 0.5
             r["extras"] = rng.random() < 0.5
